@@ -96,6 +96,7 @@ type eCase struct {
 	Get   [][2]string `json:"get"`
 	Post  [][2]string `json:"post"`
 	Hdr   [][2]string `json:"hdr"`
+	Rhdr  [][2]string `json:"rhdr,omitempty"` // response headers, added before the first Process* call
 	Calls []string    `json:"calls"`
 }
 
@@ -464,6 +465,9 @@ func runEngCase(waf coraza.WAF, c *eCase, cbp *[]string) string {
 	for _, p := range c.Hdr {
 		tx.AddRequestHeader(name(p[0]), gen.Unfield(p[1]))
 	}
+	for _, p := range c.Rhdr {
+		tx.AddResponseHeader(name(p[0]), gen.Unfield(p[1]))
+	}
 	var outs []string
 	bodyWritten := false
 	for _, call := range c.Calls {
@@ -514,10 +518,11 @@ func runEngCase(waf coraza.WAF, c *eCase, cbp *[]string) string {
 // ---- generator ----
 
 var (
-	eKeys        = []string{"a", "b", "A", "c", "Ab"}
-	eVals        = []string{"x", "y", "xy", "X", "1", "2", "10", "", " x ", "%78", "x\x00", "%2578", "%252578", "10.1.2.3", "192.168.1.7", "1.2.3.4"} // double encodings: urlDecode is not idempotent
-	eTxKeys      = []string{"s", "n", "k", "S", "1"}                                                                                                  // TX.1 exists from the start and is empty (capture slot)
-	eMapVar      = []string{"ARGS_GET", "ARGS_POST", "ARGS", "REQUEST_HEADERS", "TX", "ARGS_NAMES", "ARGS_GET_NAMES", "ARGS_POST_NAMES", "REQUEST_HEADERS_NAMES", "MATCHED_VARS", "MATCHED_VARS_NAMES"}
+	eKeys   = []string{"a", "b", "A", "c", "Ab"}
+	eVals   = []string{"x", "y", "xy", "X", "1", "2", "10", "", " x ", "%78", "x\x00", "%2578", "%252578", "10.1.2.3", "192.168.1.7", "1.2.3.4"} // double encodings: urlDecode is not idempotent
+	eTxKeys = []string{"s", "n", "k", "S", "1"}                                                                                                  // TX.1 exists from the start and is empty (capture slot)
+	eMapVar = []string{"ARGS_GET", "ARGS_POST", "ARGS", "REQUEST_HEADERS", "TX", "ARGS_NAMES", "ARGS_GET_NAMES", "ARGS_POST_NAMES", "REQUEST_HEADERS_NAMES", "MATCHED_VARS", "MATCHED_VARS_NAMES",
+		"REQUEST_COOKIES", "REQUEST_COOKIES_NAMES", "RESPONSE_HEADERS", "RESPONSE_HEADERS_NAMES"}
 	eReqLineVars = []string{"REQUEST_URI", "REQUEST_URI_RAW", "REQUEST_FILENAME", "REQUEST_BASENAME", "QUERY_STRING", "REQUEST_LINE", "REQUEST_METHOD", "REQUEST_PROTOCOL"}
 	eOps         = []string{"streq", "contains", "beginsWith", "endsWith", "within", "eq", "ge", "gt", "le", "lt", "pm", "unconditionalMatch", "noMatch", "ipMatch", "rx"}
 	eTfs         = []string{"lowercase", "uppercase", "trim", "urlDecode", "removeNulls", "hexEncode", "length", "trimLeft", "urlEncode"}
@@ -695,7 +700,7 @@ func genNAct(r *gen.R, p engProfile, det bool, ruleIDs []int) eNAct {
 		}
 	case 6:
 		if det {
-			a.V = gen.Field(r.Pick("%{matched_var}", "%{matched_var_name}", "v%{tx.s}", "+%{tx.n}", "%{args_get.a}"))
+			a.V = gen.Field(r.Pick("%{matched_var}", "%{matched_var_name}", "v%{tx.s}", "+%{tx.n}", "%{args_get.a}", "%{request_cookies.a}", "%{request_cookies.b}", "%{args_get.b}", "%{query_string}", "%{request_filename}"))
 		} else {
 			a.V = gen.Field(r.Pick("+%{tx.n}", "%{tx.s}z"))
 		}
@@ -1127,6 +1132,33 @@ func genEngCase(r *gen.R, p engProfile) *eCase {
 		return out
 	}
 	c.Get, c.Post, c.Hdr = pairs(), pairs(), pairs()
+	if r.Chance(0.3) {
+		c.Rhdr = pairs()
+	}
+	if r.Chance(0.3) {
+		// a Cookie header: names from the key vocabulary (also differing only in letter case, repeated, empty values, no '=')
+		var cs []string
+		for k := 1 + r.Intn(4); k > 0; k-- {
+			cs = append(cs, r.Pick(eKeys...)+r.Pick("=", "=", "= ", "")+r.Pick("x", "y", "1", "xy", "", "10"))
+		}
+		if r.Chance(0.5) {
+			// the same name in another letter case (one bucket of the collection), and a rule whose outcome is the
+			// first value of that bucket: the order of the header decides, nothing else may
+			n := r.Pick("a", "b", "c")
+			cs = append(cs, n+"=lower", strings.ToUpper(n)+"=UPPER")
+			r.Shuffle(len(cs), func(i, j int) { cs[i], cs[j] = cs[j], cs[i] })
+			c.Rules = append(c.Rules, eRule{ID: 13, Ph: 1 + r.Intn(2), Mk: "-", Rt: "-", Sa: "-", Sev: -1, Tags: []string{}, Log: true, Audit: true,
+				Links: []eLink{{Tg: []eTarget{}, Tfs: []string{}, NA: []eNAct{{N: "setvar", K: gen.Field("ck"), V: gen.Field("%{request_cookies." + n + "}")}}}}})
+		}
+		c.Hdr = append(c.Hdr, [2]string{gen.Field(r.Pick("Cookie", "cookie", "COOKIE")), gen.Field(strings.Join(cs, r.Pick("; ", ";", " ; ")))})
+	}
+	if c.Uri != "" && strings.Contains(gen.Unfield(c.Uri), "?") && r.Chance(0.3) {
+		// the same for the query string: a name in both letter cases, and a rule reading the first value
+		n := r.Pick("a", "b", "c")
+		c.Uri = gen.Field(gen.Unfield(c.Uri) + r.Pick("&"+n+"=lower&"+strings.ToUpper(n)+"=UPPER", "&"+strings.ToUpper(n)+"=UPPER&"+n+"=lower"))
+		c.Rules = append(c.Rules, eRule{ID: 14, Ph: 1 + r.Intn(2), Mk: "-", Rt: "-", Sa: "-", Sev: -1, Tags: []string{}, Log: true, Audit: true,
+			Links: []eLink{{Tg: []eTarget{}, Tfs: []string{}, NA: []eNAct{{N: "setvar", K: gen.Field("qa"), V: gen.Field("%{args_get." + n + "}")}}}}})
+	}
 	if cacheTrioName != "" {
 		other := map[string]string{"a": "b", "b": "a"}[cacheTrioName]
 		add := [][2]string{{gen.Field(other), gen.Field(r.Pick("z", "x", "%78"))}}
